@@ -1,5 +1,6 @@
 import O4.Lemmas.Obfs4Shaping
 import O4.Model.ProbDist
+import O4.Generated.Facts.Probdist
 /-!
 # C09 — obfs4 traffic shaping follows the seeded distributions, never crashes
 
@@ -323,6 +324,40 @@ theorem adopts_server_dist {α : Type} (ops : GoRand.NumOps α) (sha256 : Bytes 
     have : (payload.length == seedPacketPayloadLength) = false := by
       simp [seedPacketPayloadLength, hne]
     simp [adoptSeed, this]
+
+/-- **A bridge never adopts a seed.**  Whatever PRNG-seed packet a peer sends to the server
+    side (any payload, any length, any hash), its distribution seeds — hence its length and IAT
+    tables, `ProbDist.new` of its own configured seed — are unchanged, so its bursts keep
+    following its own table. -/
+theorem server_ignores_seed_packet {α : Type} (ops : GoRand.NumOps α) (sha256 : Bytes → Bytes)
+    (seed : Bytes) (iatMode : Nat) (biased : Bool) (payloads : List Bytes) :
+    payloads.foldl (adoptSeed sha256 true) (serverSeeds sha256 seed iatMode)
+      = serverSeeds sha256 seed iatMode ∧
+    ProbDist.new ops (payloads.foldl (adoptSeed sha256 true) (serverSeeds sha256 seed iatMode)).len
+        0 (mss : Nat) biased = ProbDist.new ops seed 0 (mss : Nat) biased := by
+  have h : ∀ d : DistSeeds, payloads.foldl (adoptSeed sha256 true) d = d := by
+    induction payloads with
+    | nil => intro d; rfl
+    | cons p ps ih =>
+      intro d
+      have : adoptSeed sha256 true d p = d := by simp [adoptSeed]
+      rw [List.foldl_cons, this, ih]
+  rw [h]
+  exact ⟨rfl, rfl⟩
+
+/-- **The client's `Write` samples atomically with respect to re-seeding** (structural fact
+    regenerated from `common/probdist` on every run): `lenDist.Sample()` / `iatDist.Sample()` called
+    by `Write` and `Reset()` called by `readPackets` when a PRNG-seed packet arrives in another
+    goroutine both hold the distribution's mutex for their whole body and touch no table before
+    it, so each sample is drawn from one complete table — the old or the new one — which is what
+    the sampler abstraction of the theorems above assumes.  Scheduling is sampled by the harness
+    (seed packets streaming in while the client writes). -/
+theorem sampling_atomic_with_reseed :
+    Facts.Probdist.WeightedDist_Sample_locked = true ∧
+    Facts.Probdist.WeightedDist_Sample_prelock = [] ∧
+    Facts.Probdist.WeightedDist_Reset_locked = true ∧
+    Facts.Probdist.WeightedDist_Reset_prelock = [] := by
+  decide
 
 /-- non-vacuity: a 24-byte payload meets the length hypothesis -/
 example : (Bytes.zeros 24).length = Consts.Obfs4.seedPacketPayloadLength := by decide
